@@ -27,6 +27,7 @@ def run(ck, fb):
     r13p(ck, fb)
     r13q(ck, fb)
     r13r(ck, fb)
+    r13s(ck, fb)
 
 
 def _run0(ck, fb):
@@ -755,3 +756,66 @@ def r13r(ck, fb, R='R13r'):
                'receive_snapshot reads last_modified_millis: whether a peer\'s copy of an instance this node owns is applied depends on time stamps, and the '
                'copy of a silent instance always carries the newer one - it is applied like a heartbeat, the instance is healthy again and its clock '
                'restarts although no heartbeat arrived', 'no time stamp consulted')
+
+
+def own_reset_walk(fb, env):
+    """NamingActor::update_instance walked under an assignment of {range: 'Some'|'None', in_range: bool, from_grpc: bool, from_sync: bool}:
+    -> (body, blocks that make the instance this node's own (from_cluster = 0), reachable set, returns reachable without passing them)"""
+    from rn import walk
+    from rn.facts import op_const
+    b = fb.bodies.get(NA + 'update_instance')
+    if b is None:
+        return None
+    names = {b.local_name(l): l for l in range(1, b.argc + 1)}
+
+    def classify(d, term):
+        if d['k'] == 'arg' and b.local_name(d['l']) == 'from_sync':
+            return ('bool', 'from_sync')
+        if d['k'] == 'discr':
+            pd = cfg.describe_operand(b, {'cp': d['pl']})
+            if pd['k'] == 'place' and pd['fields'][-1:] == ['current_range']:
+                return ('variant', 'range')
+        if d['k'] == 'call' and (cfg.callee_name(d['term']) or '').endswith('ProcessRange::is_range'):
+            return ('bool', 'in_range')
+        if d['k'] == 'place' and d['fields'][-1:] == ['from_grpc']:
+            return ('bool', 'from_grpc')
+        return None
+    resets = set()
+    for (o, f, bb, st) in b.field_writes():
+        if f == 'from_cluster' and st['rv']['k'] == 'use':
+            c = op_const(st['rv']['op'])
+            if c is not None and str(c.get('v')) == '0':
+                resets.add(bb)
+    # the reset of an instance this node HOLDS and gets back from a peer (from_cluster == node_id, R15l) is another matter: not a claim by range
+    def by_own_id(bb):
+        for a in cfg.guard_atoms(b, bb):
+            if a[0] == 'cmp':
+                for side in (a[2], a[3]):
+                    sd = cfg.strip_calls(b, side)
+                    if sd['k'] == 'place' and sd['fields'][-1:] == ['node_id']:
+                        return True
+        return False
+    resets = {bb for bb in resets if not by_own_id(bb)}
+    cn = lambda t: 'in_range' if (cfg.callee_name(t) or '').endswith('ProcessRange::is_range') else None
+    r, flags = walk.table_walk(b, classify, env, cn)
+    esc = walk.escapes_under(b, classify, env, resets, (), cn)
+    return b, resets, r, esc
+
+
+def r13s(ck, fb, R='R13s'):
+    ck.rule(R, 'an HTTP instance of a service in this node\'s range is this node\'s to supervise, however it arrived: NamingActor::update_instance makes it '
+               'its own (from_cluster = 0, which is what is_enable_timeout() looks at) for a client request AND for an update that comes from a sync - a '
+               'restarted owner gets its instances back from the peers\' snapshots marked from_cluster = its own id, and a client that died during the '
+               'outage never sends the request that would claim them. Walked under (range assigned, key in range, not gRPC) for from_sync false and true: '
+               'every path passes the reset')
+    for fs in (False, True):
+        w = own_reset_walk(fb, {'range': 'Some', 'in_range': True, 'from_grpc': False, 'from_sync': fs})
+        if w is None:
+            ck.body(NA + 'update_instance', R)
+            return
+        b, resets, r, esc = w
+        ck.floor(R, 'assignments from_cluster = 0 in update_instance', len(resets), 1)
+        ck.require(bool(resets & r) and not esc, R, 'update_instance:in-range-http-instance-is-claimed:from_sync=%s' % fs, b.where(esc[0]) if esc else b.where(),
+                   'with the service in this node\'s range and the instance not gRPC, update_instance can finish without making the instance its own when '
+                   'from_sync is %s: it keeps from_cluster != 0, is_enable_timeout() is false, and an instance whose client is gone is never marked '
+                   'unhealthy or removed - on the responsible node, hence nowhere' % fs, 'claimed on every path')
